@@ -16,6 +16,19 @@ then loaded through ExperimentPackage.packageFromLocation + Experiment.experimen
 The dump holds: component names, graph edges, per component the resolved configuration (variables
 substituted), the task environment, memoization hashes (strong + fuzzy), and the layered user variables.
 Everything that comes from a set/dict is sorted, the scratch directory is replaced by $I.
+
+"listing" (in jobs.json): the order in which THIS process sees the entries of every directory (os.listdir /
+os.scandir, hence glob, os.walk, shutil): absent = what the file system gives, "ascending", "descending",
+"shuffle:<seed>" (a fixed permutation per directory).  That is what differs between ext4, tmpfs, NFS, APFS ...
+
+kind "dosini": {"doc": {"experiment": {platform|"default": {section: {option: value}}},
+                        "variables": {platform|"default": {section: {name: value}}},
+                        "stages": [{component: {option: value}}, ...], "status": {...}|absent},
+                "history": [{"variable_files": [names], "platform": str|null}, ...]}
+is written as a DOSINI package (conf/experiment[.<platform>].conf, conf/variables.conf, conf/variables.d/<platform>.conf,
+conf/stages.d/stage<N>.conf); every entry of "history" is an earlier load of the directory with
+createInstanceFiles=True (what a launch does: it stores the instance flavour stage<N>.instance.conf, ... next to the
+package flavour) performed BEFORE the loads that are dumped.
 """
 import json
 import os
@@ -26,6 +39,81 @@ import warnings
 
 warnings.filterwarnings("ignore")
 logging.disable(logging.CRITICAL)
+
+
+def install_listing_order(mode):
+    """every directory listing of this process is reordered: os.listdir and os.scandir (glob, os.walk, shutil and
+    pathlib go through them)"""
+    if not mode:
+        return
+    orig_listdir, orig_scandir = os.listdir, os.scandir
+
+    def reorder(items, key):
+        items = sorted(items, key=key)
+        if mode == "ascending":
+            return items
+        if mode == "descending":
+            return items[::-1]
+        seed = mode.split(":", 1)[1]
+        random.Random("%s|%s" % (seed, "|".join(str(key(i)) for i in items))).shuffle(items)
+        return items
+
+    def name_of(x):
+        x = x.name if hasattr(x, "name") else x
+        return x.decode("utf-8", "surrogateescape") if isinstance(x, bytes) else x
+
+    def listdir(*a, **k):
+        return reorder(orig_listdir(*a, **k), name_of)
+
+    class Scan(object):
+        def __init__(self, *a, **k):
+            with orig_scandir(*a, **k) as it:
+                self._entries = iter(reorder(list(it), name_of))
+
+        def __iter__(self):
+            return self
+
+        def __next__(self):
+            return next(self._entries)
+
+        def close(self):
+            self._entries = iter(())
+
+        def __enter__(self):
+            return self
+
+        def __exit__(self, *exc):
+            self.close()
+            return False
+
+    os.listdir = listdir
+    os.scandir = Scan
+
+
+def ini_text(sections):
+    lines = []
+    for sec, opts in sections.items():
+        lines.append("[%s]" % sec)
+        for k, v in (opts or {}).items():
+            lines.append("%s=%s" % (k, v))
+        lines.append("")
+    return "\n".join(lines) + "\n"
+
+
+def dosini_entries(doc):
+    """(relative path, text) of every file of the DOSINI package"""
+    entries = []
+    for plat, sections in (doc.get("experiment") or {}).items():
+        entries.append(("conf/experiment.conf" if plat == "default" else "conf/experiment.%s.conf" % plat,
+                        ini_text(sections)))
+    for plat, sections in (doc.get("variables") or {}).items():
+        entries.append(("conf/variables.conf" if plat == "default" else "conf/variables.d/%s.conf" % plat,
+                        ini_text(sections)))
+    for i, comps in enumerate(doc.get("stages") or []):
+        entries.append(("conf/stages.d/stage%d.conf" % i, ini_text(comps)))
+    if doc.get("status"):
+        entries.append(("conf/status.conf", ini_text(doc["status"])))
+    return entries
 
 
 def permute_keys(obj, rnd):
@@ -60,8 +148,11 @@ def materialise(job, root):
     pkg = os.path.join(root, "p.package")
     entries = []  # (relpath, text)
     doc = permute_keys(unjson_keys(job["doc"]), rnd)
-    main = "conf/flowir_package.yaml" if job.get("kind", "flowir") == "flowir" else "conf/dsl.yaml"
-    entries.append((main, yaml.safe_dump(doc, sort_keys=False)))
+    if job.get("kind") == "dosini":
+        entries.extend(dosini_entries(doc))
+    else:
+        main = "conf/flowir_package.yaml" if job.get("kind", "flowir") == "flowir" else "conf/dsl.yaml"
+        entries.append((main, yaml.safe_dump(doc, sort_keys=False)))
     for rel, text in job.get("files", {}).items():
         entries.append((rel, text))
     frnd.shuffle(entries)
@@ -77,9 +168,23 @@ def materialise(job, root):
     paths = {}
     for vf in vfs:
         p = os.path.join(vdir, vf["name"])
+        vdoc = permute_keys(unjson_keys(vf["doc"]), rnd)
+        if vf["name"].endswith(".conf"):
+            # the DOSINI spelling of a user variable file: [GLOBAL] and [STAGE<N>] sections
+            sections = {}
+            for sec, body in vdoc.items():
+                if sec == "global":
+                    sections["GLOBAL"] = body
+                else:
+                    for st, sv in body.items():
+                        sections["STAGE%d" % int(st)] = sv
+            text = ini_text(sections)
+        else:
+            text = yaml.safe_dump(vdoc, sort_keys=False)
         with open(p, "w") as fh:
-            fh.write(yaml.safe_dump(permute_keys(unjson_keys(vf["doc"]), rnd), sort_keys=False))
+            fh.write(text)
         paths[vf["name"]] = p
+    job["_vpaths"] = paths
     return pkg, [paths[n] for n in job.get("variable_order", [])]
 
 
@@ -111,6 +216,11 @@ def via_configuration(pkg, vfiles, job, how):
             conf = experiment.model.conf.ExperimentConfigurationFactory.configurationForExperiment(
                 pkg, platform=job.get("platform"), createInstanceFiles=False, updateInstanceFiles=False,
                 primitive=False, variable_files=list(vfiles))
+        elif how == "instance":
+            # the instance flavour an earlier launch stored in the directory
+            conf = experiment.model.conf.ExperimentConfigurationFactory.configurationForExperiment(
+                pkg, platform=job.get("platform"), createInstanceFiles=False, updateInstanceFiles=False,
+                primitive=False, variable_files=None, is_instance=True)
         else:
             package = experiment.model.storage.ExperimentPackage.packageFromLocation(pkg, platform=job.get("platform"))
             g = experiment.model.graph.WorkflowGraph.graphFromPackage(
@@ -135,12 +245,26 @@ def load(job, root):
     pkg, vfiles = materialise(job, root)
     out = {}
     os.chdir(root)
+    if job.get("history"):
+        import experiment.model.conf
+        out["history"] = []
+        for h in job["history"]:
+            try:
+                experiment.model.conf.ExperimentConfigurationFactory.configurationForExperiment(
+                    pkg, platform=h.get("platform"), primitive=False, is_instance=False,
+                    variable_files=[job["_vpaths"][n] for n in h.get("variable_files", [])] or None,
+                    createInstanceFiles=True, updateInstanceFiles=True)
+                out["history"].append("ok")
+            except Exception as exc:  # noqa
+                out["history"].append("error:" + err_kind(exc))
+        out["_conf_listing"] = sorted(os.path.relpath(os.path.join(d, f), pkg)
+                                      for d, _s, fs in os.walk(os.path.join(pkg, "conf")) for f in fs)
     try:
         package = experiment.model.storage.ExperimentPackage.packageFromLocation(pkg, platform=job.get("platform"))
         exp = experiment.model.data.Experiment.experimentFromPackage(
             package, location=root, variable_files=vfiles or None, platform=job.get("platform"))
     except Exception as exc:  # noqa
-        return {"error": err_kind(exc), "_msg": str(exc)[:1500].replace(root, "$I")}
+        return dict(out, error=err_kind(exc), _msg=str(exc)[:1500].replace(root, "$I"))
     inst = exp.instanceDirectory.location
     g = exp.experimentGraph
     conf = exp.configuration
@@ -201,6 +325,8 @@ def load(job, root):
     # (FlowIRExperimentConfiguration.__init__ and .parametrize; experimentFromPackage above pre-merges the files)
     out["conf_init"] = via_configuration(pkg, vfiles, job, "init")
     out["conf_parametrize"] = via_configuration(pkg, vfiles, job, "parametrize")
+    if job.get("history"):
+        out["instance_flavour"] = via_configuration(pkg, vfiles, job, "instance")
     try:
         out["user_variables"] = conf.get_user_variables()
     except Exception as exc:  # noqa
@@ -228,6 +354,7 @@ def main():
     jobs_path, out_path = os.path.abspath(sys.argv[1]), os.path.abspath(sys.argv[2])
     spec = json.load(open(jobs_path))
     tag = spec["tag"]
+    install_listing_order(spec.get("listing"))
     if spec.get("logging") == "debug":
         # an ambient setting a user can change: every logger enabled at DEBUG level, the records are discarded
         logging.disable(logging.NOTSET)
